@@ -20,18 +20,22 @@ Exp(r) == CASE K(r) = "cert" -> Expected(r.t)
             [] K(r) = "crl"  -> ExpectedCRL(r.t)
             [] K(r) = "rl"   -> ExpectedRL(r.t)
 
-Bad(r) == BadFields(Exp(r), r.obs)
-StdBad(r) == IF r.hasStd /\ r.obs.outcome = "ok"
-             THEN {f \in SeqRange(r.stdFields) \cap DOMAIN Exp(r).allowed : ~FieldOK(Exp(r), r.std, f)}
-             ELSE {}
+StdBadE(e, r) == IF r.hasStd /\ r.obs.outcome = "ok"
+                 THEN {f \in SeqRange(r.stdFields) \cap DOMAIN e.allowed : ~FieldOK(e, r.std, f)}
+                 ELSE {}
+
+\* Expected is evaluated once per record (LET), not once per field
+JudgeRec(i, r) == LET e == Exp(r)
+                      b == BadFields(e, r.obs)
+                      sb == StdBadE(e, r)
+                  IN (b = {} /\ sb = {}) \/ PrintT(ToJson([reject |-> i, bad |-> SetToSeq(b), std |-> SetToSeq(sb)]))
 
 JudgeLine(i) == LET r == Log[i] IN
   IF Kind = "metapair"
   THEN PairOK(r) \/ PrintT(ToJson([reject |-> i, bad |-> SetToSeq(PairBad(r)), std |-> <<>>]))
   ELSE IF Kind = "meta"
   THEN MetaOK(r) \/ PrintT(ToJson([reject |-> i, bad |-> SetToSeq(MetaBad(r)), std |-> <<>>]))
-  ELSE (Bad(r) = {} /\ StdBad(r) = {})
-         \/ PrintT(ToJson([reject |-> i, bad |-> SetToSeq(Bad(r)), std |-> SetToSeq(StdBad(r))]))
+  ELSE JudgeRec(i, r)
 
 ASSUME \A i \in DOMAIN Log : JudgeLine(i)
 ASSUME PrintT(<<"JUDGED", Len(Log)>>)
